@@ -8,6 +8,8 @@ import MpVerif.C19.Model
 * `slack <s> <con> <slk>`                 -> `ok`      Range2Slk entry
 * `bases <b0> <b1> ..` / `acopy <link> <sn> <sb> <dn> <db> <len>` / `am2m <link> <sn> <sb> <slen> <dn> <db> <dlen>` /
   `aslack <link> <sn> <si> <cn> <ci> <vn> <vi>` -> `ok`;  `sched` -> `entries=<n>`   schedule built through the AddEntry model
+* `broot c` / `bopen s` / `bcreate c` / `breuse c` / `bclose` / `bslack con slk` / `bm2o t s1 s2 ..` -> `ok`   one call of the
+  constructor API (`bstep`);  `bend` -> `ok=<b> closed=<b> opsequal=<b> nops=<n> leaves=<c,..>`  (built ops = ops of the real entries?)
 * `run`                                   -> `run wellfed=<b> topo=<b> sib=<b> closed=<b> noclash=<b> edges=<n>`
 * `con <cell>` / `var <cell>`             -> `<hex>`   delivered name of a constraint / variable-or-objective cell
 * `dvars <cell>..` / `dcons <cell>..`     -> `belowfree=<b> uncounted=<b> covered=<b>`   hypotheses on a set of delivered cells
@@ -50,6 +52,7 @@ structure DSt where
   E : List Edge := []
   R : List (Nat × Nat) := []
   bases : List Nat := []
+  b : BSt := {}
   sched : List Entry := []   -- most recent first
 
 def b2s (b : Bool) : String := if b then "1" else "0"
@@ -76,6 +79,34 @@ def handle (d : DSt) (ws : List String) : DSt × String :=
     match a.toNat?, b.toNat?, c.toNat? with
     | some a, some b, some c => ({ d with ops := (expandSlack a b c).reverse ++ d.ops }, "ok")
     | _, _, _ => (d, "bad-op")
+  | ["broot", c] =>
+    match c.toNat? with
+    | some c => ({ d with b := bstep d.b (.root c) }, "ok")
+    | none => (d, "bad-op")
+  | ["bopen", c] =>
+    match c.toNat? with
+    | some c => ({ d with b := bstep d.b (.openScope c) }, "ok")
+    | none => (d, "bad-op")
+  | ["bcreate", c] =>
+    match c.toNat? with
+    | some c => ({ d with b := bstep d.b (.create c) }, "ok")
+    | none => (d, "bad-op")
+  | ["breuse", c] =>
+    match c.toNat? with
+    | some c => ({ d with b := bstep d.b (.reuse c) }, "ok")
+    | none => (d, "bad-op")
+  | ["bclose"] => ({ d with b := bstep d.b .closeScope }, "ok")
+  | ["bslack", a, c] =>
+    match a.toNat?, c.toNat? with
+    | some a, some c => ({ d with b := bstep d.b (.slack a c) }, "ok")
+    | _, _ => (d, "bad-op")
+  | "bm2o" :: t :: ss =>
+    match t.toNat?, ss.mapM String.toNat? with
+    | some t, some ss => ({ d with b := bstep d.b (.many2one ss t) }, "ok")
+    | _, _ => (d, "bad-op")
+  | ["bend"] =>
+    -- the graph registered through the constructor API against the operation list taken from the real link entries
+    (d, s!"ok={b2s d.b.ok} closed={b2s d.b.scope.isNone} opsequal={b2s (decide (d.b.ops = d.ops.reverse))} nops={d.b.ops.length} leaves={",".intercalate (d.b.leaves.map toString)}")
   | "bases" :: bs =>
     match bs.mapM String.toNat? with
     | some l => ({ d with bases := l, sched := [] }, "ok")
